@@ -155,3 +155,9 @@ package method_evaluator
 //@   sitesonly
 //@   inline 2 1
 //@   callsite[C16] GetMethodT a_isPrivate == false
+
+//@ # ---- C08: no false alarm for a union argument that is a sub-union of the parameter ----
+//@ func ti/eval/method_evaluator.checkArgType
+//@   inline 12 2
+//@   ensures[C08] definedArgT != nil && argT != nil && old(definedArgT.tType == base.UNION && argT.tType == base.UNION && variantTypesWithin(argT, definedArgT)) ==> isnil(result)
+//@   witness post:0.0#3 "c = true\nx = c ? 1 : \"a\"\ng = GPIO.new(x, 1)\n" expect "type mismatch"
